@@ -118,4 +118,287 @@ theorem afterStep_spec (E : Enc σ) (cap : Nat) (r1 : Reader σ) (h : r1.WF)
     have he : r2.elog = ⟨op, r1.window, cap, st.2, E.hasMore st.1, E.isFinished st.1⟩ :: r1.elog := by rw [hr2]
     simp only [Reader.total, hwin, hs, he, fed_cons, List.append_assoc]
     rw [← List.append_assoc (r1.window.take st.2.consumed), List.take_append_drop]
+/-- how an iteration ends once the encoder has answered sanely: `r3` is the state after
+`copy_to_front` -/
+def iterTail (E : Enc σ) (st : σ × EncAns) (r3 : Reader σ) : RIter σ :=
+  if st.2.ok = false then
+    (if r3.errInvalid then .stop { r3 with errInvalid := false } (.done (.error .invalidData)) else .stop r3 .panic)
+  else if E.isFinished st.1 then .stop r3 (.done (.ok st.2.produced))
+  else if st.2.produced.length ≠ 0 then .stop r3 (.done (.ok st.2.produced))
+  else .cont r3
+
+/-- the operation `read` asks for -/
+def Reader.nextOp (r1 : Reader σ) : Op := if r1.inputLen - r1.inputOffset = 0 then Op.finish else Op.process
+
+theorem iter_fill_err (E : Enc σ) (cap : Nat) (r r1 : Reader σ) (c : Nat) (hf : r.fill = (r1, some c)) :
+    Reader.iter E cap r = .stop r1 (.done (.error (.inner c))) := by
+  unfold Reader.iter; rw [hf]
+
+/-- what an iteration of `read` can do from a well-formed state once the refill succeeded -/
+theorem iter_cases (E : Enc σ) (cap : Nat) (r r1 : Reader σ) (h : r.WF) (hf : r.fill = (r1, none))
+    (st : σ × EncAns) (hst : st = E.step r1.enc r1.nextOp r1.window cap) :
+    (¬(st.2.consumed ≤ r1.window.length ∧ st.2.produced.length ≤ cap) ∧ ∃ r2, Reader.iter E cap r = .stop r2 .panic) ∨
+    (st.2.consumed ≤ r1.window.length ∧ st.2.produced.length ≤ cap ∧
+      ∃ r3 : Reader σ, r3.WF ∧ r3.window = r1.window.drop st.2.consumed ∧ r3.enc = st.1 ∧
+        r3.elog = ⟨r1.nextOp, r1.window, cap, st.2, E.hasMore st.1, E.isFinished st.1⟩ :: r1.elog ∧
+        r3.src = r1.src ∧ r3.eof = r1.eof ∧ r3.errInvalid = r1.errInvalid ∧
+        r3.buf.length = r1.buf.length ∧ r3.total = r1.total ∧
+        Reader.iter E cap r = iterTail E st r3) := by
+  have wf1 : r1.WF := by have := (Reader.fill_spec r h).1; rw [hf] at this; exact this
+  have hw := Reader.input_eq_window r1 wf1
+  have hwl := Reader.window_length r1 wf1
+  have hlt : ¬ r1.inputLen < r1.inputOffset := by have := wf1.1; omega
+  have hspec := afterStep_spec E cap r1 wf1
+  have hst' : E.step r1.enc (if r1.inputLen - r1.inputOffset = 0 then Op.finish else Op.process) r1.window cap = st := by
+    rw [hst]; rfl
+  unfold Reader.iter
+  rw [hf]
+  simp only [hlt, if_false, hw, hst']
+  by_cases hs : st.2.consumed ≤ r1.window.length ∧ st.2.produced.length ≤ cap
+  · refine Or.inr ⟨hs.1, hs.2, ?_⟩
+    rw [if_neg (by have := hs.1; have := hs.2; omega)]
+    have hc' : (E.step r1.enc (if r1.inputLen - r1.inputOffset = 0 then Op.finish else Op.process) r1.window cap).2.consumed ≤ r1.window.length := by
+      rw [hst']; exact hs.1
+    obtain ⟨a1, a2, a3, a4, a5, a6, a7, a8, a9, a10, a11⟩ := hspec hc'
+    obtain ⟨r', c1, c2, c3, c4, c5, c6, c7, c8, c9, c10, c11⟩ := copyToFront_spec (r1.afterStep E cap) a1
+    have key : ∃ r3 : Reader σ,
+        (if r1.inputLen - r1.inputOffset - st.2.consumed = 0
+          then (r1.afterStep E cap).copyToFront else some (r1.afterStep E cap)) = some r3 ∧
+        r3.WF ∧ r3.window = (r1.afterStep E cap).window ∧ r3.buf.length = (r1.afterStep E cap).buf.length ∧
+        r3.enc = (r1.afterStep E cap).enc ∧ r3.elog = (r1.afterStep E cap).elog ∧ r3.src = (r1.afterStep E cap).src ∧
+        r3.eof = (r1.afterStep E cap).eof ∧ r3.errInvalid = (r1.afterStep E cap).errInvalid := by
+      split
+      · exact ⟨r', c1, c2, c3, c5, c6, c7, c8, c9, c10⟩
+      · exact ⟨_, rfl, a1, rfl, rfl, rfl, rfl, rfl, rfl, rfl⟩
+    obtain ⟨r3, k0, k1, k2, k3, k4, k5, k6, k7, k8⟩ := key
+    rw [hst'] at a2 a3 a4 a10
+    refine ⟨r3, k1, by rw [k2, a2], by rw [k4, a3], ?_, by rw [k6, a5], by rw [k7, a6], by rw [k8, a7], by rw [k3, a8], ?_, ?_⟩
+    · rw [k5, a4]; rfl
+    · simp only [Reader.total, k5, k2, k6]; exact a11
+    · rw [k0]
+      simp only [iterTail, k4, a3]
+      cases hok : st.2.ok <;> simp
+  · refine Or.inl ⟨hs, ?_⟩
+    rw [if_pos (by have : ¬(st.2.consumed ≤ r1.window.length ∧ st.2.produced.length ≤ cap) := hs
+                   omega)]
+    exact ⟨_, rfl⟩
+/-! ### termination of `read` -/
+
+/-- bytes that can still reach the encoder -/
+def Reader.todo (r : Reader σ) : Nat := r.src.data.length + r.window.length
+def Reader.eofFlag (r : Reader σ) : Nat := if r.eof then 0 else 1
+
+/-- facts about an iteration that goes round again -/
+theorem iter_cont (E : Enc σ) (cap : Nat) (r r' : Reader σ) (h : r.WF) (hi : Reader.iter E cap r = .cont r') :
+    ∃ (r1 : Reader σ) (st : σ × EncAns), r.fill = (r1, none) ∧ st = E.step r1.enc r1.nextOp r1.window cap ∧
+      st.2.consumed ≤ r1.window.length ∧ st.2.produced = [] ∧ st.2.ok = true ∧ E.isFinished st.1 = false ∧
+      r'.WF ∧ r'.window = r1.window.drop st.2.consumed ∧ r'.enc = st.1 ∧
+      r'.elog = ⟨r1.nextOp, r1.window, cap, st.2, E.hasMore st.1, E.isFinished st.1⟩ :: r1.elog ∧
+      r'.src = r1.src ∧ r'.eof = r1.eof ∧ r'.errInvalid = r1.errInvalid ∧ r'.buf.length = r1.buf.length ∧
+      r'.total = r1.total := by
+  cases hfl : r.fill with
+  | mk r1 o =>
+    cases o with
+    | some c => rw [iter_fill_err E cap r r1 c hfl] at hi; simp at hi
+    | none =>
+      rcases iter_cases E cap r r1 h hfl _ rfl with ⟨_, r2, h2⟩ | ⟨s1, s2, r3, k1, k2, k3, k4, k5, k6, k7, k8, k9, k10⟩
+      · rw [h2] at hi; simp at hi
+      · rw [k10] at hi
+        unfold iterTail at hi
+        split at hi
+        · split at hi <;> simp at hi
+        · next hok =>
+          split at hi
+          · simp at hi
+          · next hfin =>
+            split at hi
+            · simp at hi
+            · next hp =>
+              simp only [RIter.cont.injEq] at hi
+              subst hi
+              refine ⟨r1, _, rfl, rfl, s1, ?_, by simpa using hok, by simpa using hfin, k1, k2, k3, k4, k5, k6, k7, k8, k9⟩
+              exact List.eq_nil_of_length_eq_zero (by simpa using hp)
+
+theorem iter_cont_measure (E : Enc σ) (rank : σ → Nat) (hp : EncProgress E rank) (cap : Nat) (hcap : 0 < cap)
+    (r r' : Reader σ) (h : r.WF) (hi : Reader.iter E cap r = .cont r') :
+    r'.WF ∧ (r'.todo < r.todo ∨ (r'.todo = r.todo ∧ r'.eofFlag < r.eofFlag) ∨
+      (r'.todo = r.todo ∧ r'.eofFlag = r.eofFlag ∧ rank r'.enc < rank r.enc)) := by
+  obtain ⟨r1, st, hfl, hst, s1, s2, s3, s4, k1, k2, k3, k4, k5, k6, k7, k8, k9⟩ := iter_cont E cap r r' h hi
+  refine ⟨k1, ?_⟩
+  obtain ⟨f1, f2, f3, f4, f5, f6, f7, f8, f9, f10, moved, newL, m1, m2, m3, m4, m5, m6⟩ := Reader.fill_spec r h
+  rw [hfl] at f1 f4 f9 m1 m2
+  simp only at f1 f4 f9 m1 m2
+  have ht1 : r1.todo = r.todo := by
+    simp only [Reader.todo, m1, m2, List.length_append]; omega
+  have hf1 : r1.eofFlag ≤ r.eofFlag := by
+    simp only [Reader.eofFlag]
+    cases he : r.eof
+    · split <;> simp
+    · simp [f9 he]
+  have ht' : r'.todo = r1.todo - st.2.consumed := by
+    simp only [Reader.todo, k2, k5, List.length_drop]; omega
+  have hf' : r'.eofFlag = r1.eofFlag := by simp only [Reader.eofFlag, k6]
+  by_cases hc : st.2.consumed = 0
+  · -- nothing consumed: the encoder's rank went down
+    have hwl := Reader.window_length r1 f1
+    have hdem : Demanded E st.1 r1.nextOp r1.window := by
+      unfold Reader.nextOp
+      split
+      · exact Or.inr (Or.inl ⟨rfl, s4⟩)
+      · next hne =>
+        refine Or.inl ⟨rfl, ?_⟩
+        intro hnil; rw [hnil] at hwl; simp at hwl; omega
+    have hlt : rank r'.enc < rank r.enc := by
+      rw [k3, ← f4, hst]
+      apply hp.stall r1.enc r1.nextOp r1.window cap hcap
+      · rw [← hst]; exact s3
+      · rw [← hst]; exact hc
+      · rw [← hst]; exact hdem
+    have : r'.todo = r.todo := by rw [ht', hc, ht1]; simp
+    rcases Nat.lt_or_ge r'.eofFlag r.eofFlag with hlt' | hge
+    · exact Or.inr (Or.inl ⟨this, hlt'⟩)
+    · exact Or.inr (Or.inr ⟨this, by omega, hlt⟩)
+  · left
+    have : st.2.consumed ≤ r1.todo := by simp only [Reader.todo]; omega
+    omega
+
+theorem readLoop_terminates (E : Enc σ) (rank : σ → Nat) (hp : EncProgress E rank) (cap : Nat) (hcap : 0 < cap) :
+    ∀ (T F R : Nat) (r : Reader σ), r.WF → r.todo = T → r.eofFlag = F → rank r.enc = R →
+      ∃ N, ∀ fuel, N ≤ fuel → (Reader.readLoop E cap fuel r).2 ≠ .livelock := by
+  intro T
+  induction T using Nat.strongRecOn with
+  | ind T ihT =>
+    intro F
+    induction F using Nat.strongRecOn with
+    | ind F ihF =>
+      intro R
+      induction R using Nat.strongRecOn with
+      | ind R ihR =>
+        intro r hwf hT hF hR
+        cases hi : Reader.iter E cap r with
+        | stop r' o =>
+          refine ⟨1, ?_⟩
+          intro fuel hf
+          obtain ⟨f, rfl⟩ : ∃ f, fuel = f + 1 := ⟨fuel - 1, by omega⟩
+          simp only [Reader.readLoop, hi]
+          -- an iteration never stops with `livelock`
+          cases hfl : r.fill with
+          | mk r1 o =>
+            cases o with
+            | some c => rw [iter_fill_err E cap r r1 c hfl] at hi; simp at hi; rw [← hi.2]; simp
+            | none =>
+              rcases iter_cases E cap r r1 hwf hfl _ rfl with ⟨_, r2, h2⟩ | ⟨s1, s2, r3, k1, k2, k3, k4, k5, k6, k7, k8, k9, k10⟩
+              · rw [h2] at hi; simp at hi; rw [← hi.2]; simp
+              · rw [k10] at hi
+                unfold iterTail at hi
+                split at hi
+                · split at hi <;> (simp at hi; rw [← hi.2]; simp)
+                · split at hi
+                  · simp at hi; rw [← hi.2]; simp
+                  · split at hi
+                    · simp at hi; rw [← hi.2]; simp
+                    · simp at hi
+        | cont r' =>
+          obtain ⟨wf', hm⟩ := iter_cont_measure E rank hp cap hcap r r' hwf hi
+          have hnext : ∃ N, ∀ fuel, N ≤ fuel → (Reader.readLoop E cap fuel r').2 ≠ .livelock := by
+            rcases hm with h1 | ⟨h1, h2⟩ | ⟨h1, h2, h3⟩
+            · exact ihT r'.todo (by omega) r'.eofFlag (rank r'.enc) r' wf' rfl rfl rfl
+            · exact ihF r'.eofFlag (by omega) (rank r'.enc) r' wf' (by omega) rfl rfl
+            · exact ihR (rank r'.enc) (by omega) r' wf' (by omega) (by omega) rfl
+          obtain ⟨N, hN⟩ := hnext
+          refine ⟨N + 1, ?_⟩
+          intro fuel hf
+          obtain ⟨f, rfl⟩ : ∃ f, fuel = f + 1 := ⟨fuel - 1, by omega⟩
+          simp only [Reader.readLoop, hi]
+          exact hN f (by omega)
+/-! ### what a successful `read` delivers -/
+
+/-- the refill keeps the total -/
+theorem Reader.fill_total (r : Reader σ) (h : r.WF) : r.fill.1.total = r.total := by
+  obtain ⟨f1, f2, f3, f4, f5, f6, f7, f8, f9, f10, moved, newL, m1, m2, m3, m4, m5, m6⟩ := Reader.fill_spec r h
+  simp only [Reader.total, f5, m1, m2, List.append_assoc]
+
+/-- facts about an iteration that ends the call successfully -/
+theorem iter_stop_ok (E : Enc σ) (cap : Nat) (r r' : Reader σ) (bs : Bytes) (h : r.WF)
+    (hi : Reader.iter E cap r = .stop r' (.done (.ok bs))) :
+    ∃ (r1 : Reader σ) (st : σ × EncAns), r.fill = (r1, none) ∧ st = E.step r1.enc r1.nextOp r1.window cap ∧
+      st.2.consumed ≤ r1.window.length ∧ st.2.produced.length ≤ cap ∧ bs = st.2.produced ∧ st.2.ok = true ∧
+      (E.isFinished st.1 = true ∨ bs ≠ []) ∧
+      r'.WF ∧ r'.window = r1.window.drop st.2.consumed ∧ r'.enc = st.1 ∧
+      r'.elog = ⟨r1.nextOp, r1.window, cap, st.2, E.hasMore st.1, E.isFinished st.1⟩ :: r1.elog ∧
+      r'.src = r1.src ∧ r'.eof = r1.eof ∧ r'.errInvalid = r1.errInvalid ∧ r'.total = r1.total := by
+  cases hfl : r.fill with
+  | mk r1 o =>
+    cases o with
+    | some c => rw [iter_fill_err E cap r r1 c hfl] at hi; simp at hi
+    | none =>
+      rcases iter_cases E cap r r1 h hfl _ rfl with ⟨_, r2, h2⟩ | ⟨s1, s2, r3, k1, k2, k3, k4, k5, k6, k7, k8, k9, k10⟩
+      · rw [h2] at hi; simp at hi
+      · rw [k10] at hi
+        unfold iterTail at hi
+        split at hi
+        · split at hi <;> simp at hi
+        · next hok =>
+          have hok' : (E.step r1.enc r1.nextOp r1.window cap).2.ok = true := by simpa using hok
+          split at hi
+          · next hfin =>
+            simp only [RIter.stop.injEq, Out.done.injEq, Except.ok.injEq] at hi
+            obtain ⟨h1, h2⟩ := hi
+            subst h1 h2
+            exact ⟨r1, _, rfl, rfl, s1, s2, rfl, hok', Or.inl hfin, k1, k2, k3, k4, k5, k6, k7, k9⟩
+          · split at hi
+            · next hp =>
+              simp only [RIter.stop.injEq, Out.done.injEq, Except.ok.injEq] at hi
+              obtain ⟨h1, h2⟩ := hi
+              subst h1 h2
+              refine ⟨r1, _, rfl, rfl, s1, s2, rfl, hok', Or.inr ?_, k1, k2, k3, k4, k5, k6, k7, k9⟩
+              intro hnil; rw [hnil] at hp; simp at hp
+            · simp at hi
+
+/-- a successful `read`: the bytes returned are exactly what the encoder produced during the
+call (only the last encoder call of a `read` produces anything), the wrapped reader did not
+fail, nothing was lost or duplicated (`total`), the error value is still in stock -/
+theorem readLoop_ok (E : Enc σ) (cap : Nat) : ∀ (fuel : Nat) (r r' : Reader σ) (bs : Bytes), r.WF →
+    Reader.readLoop E cap fuel r = (r', .done (.ok bs)) →
+    r'.WF ∧ r'.total = r.total ∧ r'.errInvalid = r.errInvalid ∧ r'.src.tail = r.src.tail ∧
+    ∃ (newE : List ERec) (newL : List LogE),
+      r'.elog = newE ++ r.elog ∧ emitted newE = bs ∧ newE ≠ [] ∧
+      (∀ rc ∈ newE, rc.cap = cap ∧ rc.ans.ok = true ∧ rc.ans.produced.length ≤ cap) ∧
+      (E.isFinished r'.enc = true ∨ bs ≠ []) ∧
+      r'.src.log = newL ++ r.src.log ∧ (∀ e ∈ newL, ∀ c, e.res ≠ .err c) := by
+  intro fuel
+  induction fuel with
+  | zero => intro r r' bs _ h; simp [Reader.readLoop] at h
+  | succ fuel ih =>
+    intro r r' bs hwf h
+    simp only [Reader.readLoop] at h
+    obtain ⟨f1, f2, f3, f4, f5, f6, f7, f8, f9, f10, moved, newL0, m1, m2, m3, m4, m5, m6⟩ := Reader.fill_spec r hwf
+    have ftot := Reader.fill_total r hwf
+    split at h
+    · next r2 o hi =>
+      simp only [Prod.mk.injEq] at h
+      obtain ⟨h1, h2⟩ := h
+      subst h1 h2
+      obtain ⟨r1, st, hfl, hst, s1, s2, s3, s4, s5, k1, k2, k3, k4, k5, k6, k7, k8⟩ := iter_stop_ok E cap r _ bs hwf hi
+      rw [hfl] at f5 f6 f8 m4 m6 ftot
+      simp only at f5 f6 f8 m4 m6 ftot
+      refine ⟨k1, by rw [k8, ftot], by rw [k7, f6], by rw [k5, f8], [⟨r1.nextOp, r1.window, cap, st.2, E.hasMore st.1, E.isFinished st.1⟩], newL0, by rw [k4, f5]; simp, by simp [emitted, s3], by simp, ?_, by rw [k3]; exact s5, by rw [k5, m4], m6 trivial⟩
+      intro rc hrc; simp at hrc; subst hrc; exact ⟨rfl, s4, s2⟩
+    · next r2 hi =>
+      obtain ⟨r1, st, hfl, hst, s1, s2, s3, s4, k1, k2, k3, k4, k5, k6, k7, k8, k9⟩ := iter_cont E cap r r2 hwf hi
+      rw [hfl] at f5 f6 f8 m4 m6 ftot
+      simp only at f5 f6 f8 m4 m6 ftot
+      obtain ⟨i1, i2, i3, i4, newE, newL, j1, j2, j3, j4, j5, j6, j7⟩ := ih r2 r' bs k1 h
+      refine ⟨i1, by rw [i2, k9, ftot], by rw [i3, k7, f6], by rw [i4, k5, f8], newE ++ [⟨r1.nextOp, r1.window, cap, st.2, E.hasMore st.1, E.isFinished st.1⟩], newL ++ newL0, ?_, ?_, by simp, ?_, j5, ?_, ?_⟩
+      · rw [j1, k4, f5]; simp
+      · rw [emitted_append, j2]; simp [emitted, s2]
+      · intro rc hrc
+        rcases List.mem_append.mp hrc with h' | h'
+        · exact j4 rc h'
+        · simp at h'; subst h'; exact ⟨rfl, s3, by simp [s2]⟩
+      · rw [j6, k5, m4]; simp
+      · intro e he c
+        rcases List.mem_append.mp he with h' | h'
+        · exact j7 e h' c
+        · exact m6 trivial e h' c
 end BV.Adapters
